@@ -131,6 +131,9 @@ func (e *Engine) Generate(prop, tier string, seed uint64, run int) *sim.Plan {
 	if r.Chance(0.25) {
 		nhub = 2
 	}
+	if prop == "C14" {
+		nhub = r.Range(1, 3)
+	}
 	// fault-free and fault-injecting configurations are separate; runs of a property
 	// served by several engines are dealt round-robin, so count this engine's runs only
 	ne := len(sim.PropEngines[prop])
@@ -160,6 +163,8 @@ func (e *Engine) Generate(prop, tier string, seed uint64, run int) *sim.Plan {
 	case "C01", "C02", "C03", "C10":
 		// replication workload; identities are mutated on their home replica only
 		w.identmut = 3
+	case "C14":
+		w = weights{newbug: 10, edit: 12, commit: 2, push: 14, pull: 16, fetch: 3, remove: 16, restart: 2, identmut: 2}
 	case "C11":
 		w = weights{newbug: 8, edit: 30, commit: 6, push: 14, pull: 18, fetch: 1, merge: 2, remove: 3, restart: 4, cachesize: 3, losecache: 2, identmut: 4}
 	case "C12":
@@ -200,6 +205,14 @@ func (e *Engine) Generate(prop, tier string, seed uint64, run int) *sim.Plan {
 	p.Cfg["permute_refs"] = r.Chance(0.5)
 	p.Cfg["extra_idents"] = r.Intn(2)
 	p.Cfg["loaders"] = true
+	if prop == "C14" {
+		// 0..3 remotes: replica 0 gets any subset of the hubs (possibly none), the others all of them
+		masks := []interface{}{r.Intn(1 << uint(nhub))}
+		for i := 1; i < nrep; i++ {
+			masks = append(masks, (1<<uint(nhub))-1)
+		}
+		p.Cfg["remote_masks"] = masks
+	}
 	if prop == "C05" && r.Chance(0.3) {
 		p.Cfg["loaders"] = false // the command path: execenv.LoadRepo passes no clock loaders
 	}
@@ -288,6 +301,12 @@ func (e *Engine) Generate(prop, tier string, seed uint64, run int) *sim.Plan {
 			if faults && r.Chance(0.5) && prop != "C11" && prop != "C12" {
 				st.K = "dirty" // C11/C12 sessions are cleanly closed (a stale cache file after a kill is C06's)
 			}
+		case "remove":
+			st.K = []string{"", "", "cli", "ident", ""}[r.Intn(5)]
+			st.N = r.Intn(64)
+			if r.Chance(0.5) {
+				st.R = 0 // the replica with the varying number of remotes
+			}
 		case "losecache":
 			st.N = r.Range(1, 3) // bit mask: 1 = cache directory, 2 = index directory
 		case "delclocks":
@@ -308,6 +327,10 @@ func (e *Engine) Generate(prop, tier string, seed uint64, run int) *sim.Plan {
 			}
 		}
 		p.Steps = append(p.Steps, st)
+	}
+	if prop == "C14" && r.Chance(0.3) {
+		id++
+		p.Steps = append(p.Steps, sim.Step{Id: id, Op: "wipe", R: r.Intn(nrep), D: 10})
 	}
 	return p
 }
